@@ -25,7 +25,8 @@ RULE = (
     "affinely mapped or embedded grid) or anisotropic K; distinct by (grid, method, K, field, pass); "
     "scale axis {1e-3, 1e3} on one grid per dimension (plain and embedded) where, in addition, "
     "discretize + assemble + solve are repeated on the SAME grid, tensor and data dictionary; "
-    "grid, tensor, bc and bc_values are digested before / after (purity)"
+    "grid, tensor, bc and bc_values are digested before / after (purity); MVEM also on 5 valid "
+    "NON-CONVEX (dart quadrilateral) grids, plain and embedded"
 )
 ASSUMPTIONS = [
     "all boundary faces Dirichlet with data p(x_f); constant permeability, given as a 3x3 "
@@ -53,6 +54,13 @@ MIN_CLASSES = 6
 CHUNK = 16
 TOL = 1e-10
 KW = "flow"
+DARTS = [  # valid non-convex (dart) quadrilaterals: an interior node moved past a neighbour's diagonal
+    {"kind": "cart", "n": [3, 3], "set": [[5, [0.05, 0.07]]]},
+    {"kind": "cart", "n": [3, 3], "set": [[5, [0.05, 0.07]]], "map": "shear"},
+    {"kind": "cart", "n": [2, 2], "set": [[4, [0.9, 0.88]]]},
+    {"kind": "cart", "n": [3, 2], "set": [[5, [0.06, 0.1]]]},
+    {"kind": "cart", "n": [3, 3], "set": [[5, [0.05, 0.07]], [10, [0.95, 0.93]]]},
+]
 
 
 def _rotK():
@@ -145,6 +153,9 @@ def cases(tier):
         ({"kind": "cart", "n": [2, 2], "pert": [[4, [1, -1]]]}, ["mvem"]),
         ({"kind": "cart", "n": [2, 2, 2], "map": "skew"}, ["mvem"]),
     ]
+    for sp in DARTS:
+        out.append({"grid": sp, "method": "mvem"})
+        out.append({"grid": dict(sp, embed="Rgen"), "method": "mvem"})
     for spec, methods in fam:
         for sc in (1.0, 1e-3, 1e3):
             for meth in methods:
@@ -177,10 +188,15 @@ def run_case(case) -> Outcome:
     hmin = G.h_min(g)
     amax = float(np.linalg.norm(g.face_normals, axis=0).max())
     gname = G.name(spec)
-    plain = not spec.get("pert") and spec.get("map", "id") == "id" and spec.get("embed", "none") == "none"
+    plain = (not spec.get("pert") and not spec.get("set") and spec.get("map", "id") == "id"
+             and spec.get("embed", "none") == "none")
+    if spec.get("set") and not G.nonconvex_cells(g):
+        raise RuntimeError("declared dart grid has no non-convex cell")
     gcls = f"{d}d/{spec['kind']}" + ("" if plain else "*") + (">3d" if spec.get("embed", "none") != "none" else "") + f"/{method}"
     if spec.get("scale", 1) != 1:
         gcls += f"/x{spec['scale']:g}"
+    if spec.get("set"):
+        gcls += "/dart"
     reuse = bool(case.get("reuse"))
     xc_o, xf_o, nrm_o = g.cell_centers.copy(), g.face_centers.copy(), g.face_normals.copy()
     ones = np.ones(nc)
